@@ -248,6 +248,21 @@ def run(ctx):
             ctx.tick(3 * n, ("batch_size", n, gc["alt"]))
             for c, i, e, o, sv in v[:3]:
                 ctx.violation(c, {"kind": "batch", "gc": gc, "n": n, "alt": gc["alt"]}, e, o)
+    # the cube's faces over a dense ladder of detector altitudes: whether the closed-form inversion's intermediate
+    # (an arccos argument, a cube root) rounds just outside its domain at u4 = 0 or 1 depends on the altitude, and the few
+    # altitudes of the main lattice need not be among those where it does
+    Uface = np.array(list(itertools.product([0.0, 0.5, 1.0], [0.0, 0.37, 1.0], [0.0, 0.5, 1.0], [0.0, 5e-324, 0.5, 1.0 - 2.0**-53, 1.0]))).T
+    ladder = np.unique(np.concatenate([np.arange(1.0, 60.0, 1.0), np.arange(60.0, 1000.0, 20.0), [0.1, 0.5, 1000.0, 2000.0, 5000.0, 36000.0]]))
+    for a in ladder:
+        gc = geom_cfg(float(a), 0.2, 0.3)
+        v, info = judge(gc, Uface, [0.0, 10.0])
+        ctx.tick(Uface.shape[1] * 3, ("face_ladder", int(math.log10(a) * 4)))
+        per = {}
+        for c, i, e, o, sv in v:
+            if per.get(c, 0) >= 2:
+                continue
+            per[c] = per.get(c, 0) + 1
+            ctx.violation(c, {"gc": gc, "u": Uface[:, i].tolist(), "s": sv, "alt": gc["alt"], "u4": float(Uface[3, i]), "s_pos": bool(sv and sv > 0)}, e, o)
     for ci, gc in enumerate(cfgs):
         v, info = judge(gc, U, s_list)
         ctx.tick(U.shape[1] * (1 + len(s_list)))
